@@ -21,8 +21,26 @@ ODD_ANNOTATIONS = [
     "print", "len(())", "X12", "Alias12", "Callable[P12, int]", "P12", "T12", "list[T12]",
 ]
 
+TYPING_FORMS = ["Annotated", "Final", "ClassVar", "Unpack", "Callable", "Literal", "Union", "Optional", "Type", "type", "TypeGuard",
+                "TypeIs", "Required", "NotRequired", "ReadOnly", "tuple", "Tuple", "list", "List", "dict", "Dict", "set", "frozenset",
+                "Sequence", "Mapping", "Generic", "Protocol", "Concatenate", "LiteralString", "Never", "Self", "Any", "Iterable",
+                "Awaitable", "Generator", "NewType", "TypeVar", "int", "Alias12", "X12", "P12", "T12"]
+FORM_ARGS = ["()", "int", "int, str", "int, str, bytes", "...", "[int], int", "[], int", "(), ()", "1", "None", "'x'",
+             "*tuple[int, ...]", "**P12", "T12", "P12, int", "int, ...", "[...], int", "int, 'meta', 3"]
+
+
+def odd_annotation(r):
+    """a fixed odd annotation, or a typing form applied to a wrong / degenerate argument list
+    (quoted, so that it is only evaluated by the checker)"""
+    if r.random() < 0.45:
+        return '"' + r.choice(TYPING_FORMS) + "[" + r.choice(FORM_ARGS) + ']"'
+    return r.choice(ODD_ANNOTATIONS)
+
+
 HEADER_EXTRA = """import asyncio
+import sys
 import typing
+from typing_extensions import TypeIs, TypeGuard, Annotated, Final, ClassVar, Unpack, Required, ReadOnly, Concatenate, LiteralString, Never, Self
 import functools
 from typing import ParamSpec, Any
 T12 = TypeVar("T12")
@@ -37,13 +55,91 @@ class Gen12(gen_c10.Gen):
         r = self.rng
         self.features.add("odd_annotation")
         fn = self.fresh("ann")
-        params = ", ".join(f"p{i}: {r.choice(ODD_ANNOTATIONS)}" for i in range(r.randrange(1, 4)))
-        ret = f" -> {r.choice(ODD_ANNOTATIONS)}" if r.random() < 0.5 else ""
+        params = ", ".join(f"p{i}: {odd_annotation(r)}" for i in range(r.randrange(1, 4)))
+        ret = f" -> {odd_annotation(r)}" if r.random() < 0.5 else ""
         self.emit(0, f"def {fn}({params}){ret}:")
-        self.emit(1, f"v: {r.choice(ODD_ANNOTATIONS)} = p0")
+        self.emit(1, f"v: {odd_annotation(r)} = p0")
         self.emit(1, "if p0: reveal_type(p0)")
         self.emit(1, "reveal_type(v)")
         self.emit(1, "return p0")
+        self.emit(0, "")
+
+    def typeguard_section(self):
+        """TypeIs / TypeGuard functions, methods, classmethods and staticmethods of every arity"""
+        r = self.rng
+        self.features.add("typeguard")
+        guard = lambda: f"{r.choice(['TypeIs', 'TypeGuard'])}[{r.choice(ANNOTS[:8])}]"  # noqa: E731
+        sigs = ["", "x: object", "x: object, y: int = 0", "*, x: object", "*args: object", "**kw: object", "x, /", "x: object, *rest"]
+        cls = self.fresh("Guards")
+        self.emit(0, f"class {cls}:")
+        for _ in range(r.randrange(2, 6)):
+            kind = r.choice(["method", "method", "classmethod", "staticmethod", "async"])
+            sig = r.choice(sigs)
+            name = self.fresh("g")
+            if kind == "staticmethod":
+                self.emit(1, "@staticmethod")
+                self.emit(1, f"def {name}({sig}) -> {guard()}: return True")
+            else:
+                first = "cls" if kind == "classmethod" else "self"
+                if kind == "classmethod":
+                    self.emit(1, "@classmethod")
+                full = first + (", " + sig if sig else "")
+                self.emit(1, f"{'async ' if kind == 'async' else ''}def {name}({full}) -> {guard()}: return True")
+        for _ in range(r.randrange(1, 4)):
+            self.emit(0, f"def {self.fresh('guard')}({r.choice(sigs)}) -> {guard()}: return True")
+        self.emit(0, f"def {self.fresh('use')}(o: {cls}, v: {self.union_annot()}):")
+        self.emit(1, "reveal_type(o)")
+        # call every guard that was just defined in a condition
+        for line in list(self.lines[-14:]):
+            t = line.strip()
+            if t.startswith("def guard"):
+                nm = t.split("def ")[1].split("(")[0]
+                self.emit(1, f"if {nm}({r.choice(['v', '', 'v, 1', 'x=v'])}): reveal_type(v)")
+            elif t.startswith("def g") or t.startswith("async def g"):
+                nm = t.split("def ")[1].split("(")[0]
+                self.emit(1, f"if o.{nm}({r.choice(['v', '', 'v, 1', 'x=v'])}): reveal_type(v)")
+        self.emit(0, "")
+
+    def sysinfo_section(self):
+        """comparisons pyanalyze evaluates itself (sys.version_info / sys.platform), with bad operands too"""
+        r = self.rng
+        self.features.add("sysinfo")
+        fn = self.fresh("sysc")
+        self.emit(0, f"def {fn}(a):")
+        lhs = ["sys.version_info", "sys.platform", "sys.version_info[0]", "sys.version_info[:2]", "sys.version_info.major", "sys.maxsize", "sys.byteorder"]
+        rhs = ["3", "(3,)", "(3, 8)", "'3'", "None", "(3, 'x')", "'linux'", "b'linux'", "3.5", "()", "[3, 8]", "a", "(3, None)", "sys.version_info"]
+        ops = [">=", "<", ">", "<=", "==", "!=", "is", "in", "not in"]
+        for _ in range(r.randrange(3, 9)):
+            e = f"{r.choice(lhs)} {r.choice(ops)} {r.choice(rhs)}"
+            if r.random() < 0.3:
+                e = f"{r.choice(rhs)} {r.choice(ops)} {r.choice(lhs)}"
+            k = r.randrange(3)
+            if k == 0:
+                self.emit(1, f"if {e}: reveal_type(a)")
+            elif k == 1:
+                self.emit(1, f"reveal_type({e})")
+            else:
+                self.emit(1, f"assert {e}")
+        self.emit(1, "return a")
+        self.emit(0, "")
+
+    def bounds_section(self):
+        """several order comparisons of ONE variable with literals of varying types: each attaches an
+        annotated-types bound (Gt/Ge/Lt/Le), and later bounds are checked against earlier ones"""
+        r = self.rng
+        self.features.add("bounds")
+        fn = self.fresh("bnd")
+        self.emit(0, f"def {fn}(a, b: {self.union_annot()}):")
+        lits = ["3", "'x'", "(3, 12)", "2.5", "b'y'", "None", "10**20", "[1]", "-1", "True", "sys.maxsize", "''", "()"]
+        for _ in range(r.randrange(2, 6)):
+            v = r.choice(["a", "a", "b"])
+            op = r.choice([">", ">=", "<", "<=", "==", "!="])
+            lit = r.choice(lits)
+            e = f"{v} {op} {lit}" if r.random() < 0.7 else f"{lit} {op} {v}"
+            self.emit(1, r.choice([f"assert {e}", f"if not ({e}): return None", f"if {e}: reveal_type({v})"]))
+        self.emit(1, f"if len(a) {r.choice(['>', '>=', '<', '=='])} {r.choice(['0', '1', '2', '-1'])}: reveal_type(a)")
+        self.emit(1, "reveal_type(a)")
+        self.emit(1, "return b")
         self.emit(0, "")
 
     def paramspec_section(self):
@@ -243,7 +339,8 @@ class Gen12(gen_c10.Gen):
             self.call_section, self.protocol_section, self.overload_section, self.typevar_section, self.typeddict_section,
             self.class_section, self.odd_annotation_section, self.odd_annotation_section, self.paramspec_section,
             self.decorator_section, self.expr_section, self.expr_section, self.match_section, self.async_section, self.class_odd_section,
-            self.literal_union_section, self.literal_union_section,
+            self.literal_union_section, self.literal_union_section, self.typeguard_section, self.typeguard_section,
+            self.sysinfo_section, self.global_section, self.bounds_section, self.bounds_section,
         ]
         for _ in range(r.randrange(3, 7)):
             r.choice(pieces)()
@@ -255,7 +352,11 @@ def gen_program(rng: random.Random):
     for _ in range(80):
         src, feats = g.program()
         try:
-            code = compile(src, "<gen>", "exec")
+            import warnings
+
+            with warnings.catch_warnings():
+                warnings.simplefilter("ignore")
+                code = compile(src, "<gen>", "exec")
         except SyntaxError:
             continue
         try:
